@@ -180,3 +180,16 @@ func init() {
 	regPrefix("(github.com/google/uuid.UUID).", "uuid: opaque values", pureOpaque)
 	regExtern("os.Getenv", "os.Getenv: opaque string", pureOpaque)
 }
+
+func init() {
+	for _, m := range []string{"RLock", "RUnlock", "Lock", "Unlock"} {
+		regExtern("(*sync.RWMutex)."+m, "sync.RWMutex."+m+": no effect on modelled state (reader/writer locks are not tracked)", pureOpaque)
+	}
+	regExtern("(*sync.WaitGroup).Done", "WaitGroup.Done: no effect on modelled state", pureOpaque)
+	regExtern("(*sync.WaitGroup).Add", "WaitGroup.Add: no effect on modelled state", pureOpaque)
+	regExtern("runtime/debug.Stack", "debug.Stack: opaque bytes", pureOpaque)
+	regExtern("(*net/http.Server).ListenAndServe", "http.Server.ListenAndServe: serves until closed; any error result", pureOpaque)
+	regExtern("(*net/http.Server).ListenAndServeTLS", "http.Server.ListenAndServeTLS: serves until closed; any error result", pureOpaque)
+	regExtern("github.com/free5gc/chf/pkg/app.App.Terminate", "App.Terminate: no effect on modelled state", pureOpaque)
+	regExtern("github.com/free5gc/chf/internal/sbi.ServerChf.Terminate", "App.Terminate: no effect on modelled state", pureOpaque)
+}
